@@ -152,79 +152,84 @@ var fields = map[string]field{
 		atoi(b, e.End.UnixNano(), 0)
 	},
 	"$time_common": func(b *bytes.Buffer, e *Event) {
-		atoi(b, int64(e.End.Day()), 2)
+		t := e.End.UTC()
+		atoi(b, int64(t.Day()), 2)
 		b.WriteRune('/')
-		b.WriteString(shortMonthNames[e.End.Month()])
+		b.WriteString(shortMonthNames[t.Month()])
 		b.WriteRune('/')
-		atoi(b, int64(e.End.Year()), 4)
+		atoi(b, int64(t.Year()), 4)
 		b.WriteRune(':')
-		atoi(b, int64(e.End.Hour()), 2)
+		atoi(b, int64(t.Hour()), 2)
 		b.WriteRune(':')
-		atoi(b, int64(e.End.Minute()), 2)
+		atoi(b, int64(t.Minute()), 2)
 		b.WriteRune(':')
-		atoi(b, int64(e.End.Second()), 2)
-		b.WriteString(" +0000") // TODO(fs): local time
+		atoi(b, int64(t.Second()), 2)
+		b.WriteString(" +0000")
 	},
 	"$time_rfc3339": func(b *bytes.Buffer, e *Event) {
-		atoi(b, int64(e.End.Year()), 4)
+		t := e.End.UTC()
+		atoi(b, int64(t.Year()), 4)
 		b.WriteRune('-')
-		atoi(b, int64(e.End.Month()), 2)
+		atoi(b, int64(t.Month()), 2)
 		b.WriteRune('-')
-		atoi(b, int64(e.End.Day()), 2)
+		atoi(b, int64(t.Day()), 2)
 		b.WriteRune('T')
-		atoi(b, int64(e.End.Hour()), 2)
+		atoi(b, int64(t.Hour()), 2)
 		b.WriteRune(':')
-		atoi(b, int64(e.End.Minute()), 2)
+		atoi(b, int64(t.Minute()), 2)
 		b.WriteRune(':')
-		atoi(b, int64(e.End.Second()), 2)
+		atoi(b, int64(t.Second()), 2)
 		b.WriteRune('Z')
 	},
 	"$time_rfc3339_ms": func(b *bytes.Buffer, e *Event) {
-		atoi(b, int64(e.End.Year()), 4)
+		t := e.End.UTC()
+		atoi(b, int64(t.Year()), 4)
 		b.WriteRune('-')
-		atoi(b, int64(e.End.Month()), 2)
+		atoi(b, int64(t.Month()), 2)
 		b.WriteRune('-')
-		atoi(b, int64(e.End.Day()), 2)
+		atoi(b, int64(t.Day()), 2)
 		b.WriteRune('T')
-		atoi(b, int64(e.End.Hour()), 2)
+		atoi(b, int64(t.Hour()), 2)
 		b.WriteRune(':')
-		atoi(b, int64(e.End.Minute()), 2)
+		atoi(b, int64(t.Minute()), 2)
 		b.WriteRune(':')
-		atoi(b, int64(e.End.Second()), 2)
+		atoi(b, int64(t.Second()), 2)
 		b.WriteRune('.')
-		atoi(b, int64(e.End.Nanosecond())/int64(time.Millisecond), 3)
+		atoi(b, int64(t.Nanosecond())/int64(time.Millisecond), 3)
 		b.WriteRune('Z')
 	},
 	"$time_rfc3339_us": func(b *bytes.Buffer, e *Event) {
-		atoi(b, int64(e.End.Year()), 4)
+		t := e.End.UTC()
+		atoi(b, int64(t.Year()), 4)
 		b.WriteRune('-')
-		atoi(b, int64(e.End.Month()), 2)
+		atoi(b, int64(t.Month()), 2)
 		b.WriteRune('-')
-		atoi(b, int64(e.End.Day()), 2)
+		atoi(b, int64(t.Day()), 2)
 		b.WriteRune('T')
-		atoi(b, int64(e.End.Hour()), 2)
+		atoi(b, int64(t.Hour()), 2)
 		b.WriteRune(':')
-		atoi(b, int64(e.End.Minute()), 2)
+		atoi(b, int64(t.Minute()), 2)
 		b.WriteRune(':')
-		atoi(b, int64(e.End.Second()), 2)
+		atoi(b, int64(t.Second()), 2)
 		b.WriteRune('.')
-		atoi(b, int64(e.End.Nanosecond())/int64(time.Microsecond), 6)
+		atoi(b, int64(t.Nanosecond())/int64(time.Microsecond), 6)
 		b.WriteRune('Z')
 	},
 	"$time_rfc3339_ns": func(b *bytes.Buffer, e *Event) {
-		atoi(b, int64(e.End.Year()), 4)
+		t := e.End.UTC()
+		atoi(b, int64(t.Year()), 4)
 		b.WriteRune('-')
-		atoi(b, int64(e.End.Month()), 2)
+		atoi(b, int64(t.Month()), 2)
 		b.WriteRune('-')
-		atoi(b, int64(e.End.Day()), 2)
+		atoi(b, int64(t.Day()), 2)
 		b.WriteRune('T')
-		atoi(b, int64(e.End.Hour()), 2)
+		atoi(b, int64(t.Hour()), 2)
 		b.WriteRune(':')
-		atoi(b, int64(e.End.Minute()), 2)
+		atoi(b, int64(t.Minute()), 2)
 		b.WriteRune(':')
-		atoi(b, int64(e.End.Second()), 2)
+		atoi(b, int64(t.Second()), 2)
 		b.WriteRune('.')
-		atoi(b, int64(e.End.Nanosecond()), 9)
+		atoi(b, int64(t.Nanosecond()), 9)
 		b.WriteRune('Z')
 	},
 	"$upstream_addr": func(b *bytes.Buffer, e *Event) {
